@@ -11,9 +11,9 @@ cp demo.py "$OUT/demo.py"
 [ -f NOTES.md ] && cp NOTES.md "$OUT/NOTES.md"
 export PYTHONHASHSEED=0
 PYTHONPATH="$WT" timeout 600 /venv/bin/python demo.py > "$OUT/demo_with.log" 2>&1; RC_WITH=$?
-git stash -q -- adcgen
+git apply -R "$OUT/patch.diff"
 PYTHONPATH="$WT" timeout 600 /venv/bin/python demo.py > "$OUT/demo_without.log" 2>&1; RC_WITHOUT=$?
-git stash pop -q
+git apply "$OUT/patch.diff"
 PYTHONPATH="$WT" timeout 1500 /venv/bin/python -m pytest -q -p no:cacheprovider tests > "$OUT/pytest_with.log" 2>&1; RC_TESTS=$?
 TAIL=$(tail -1 "$OUT/pytest_with.log")
 cat > "$OUT/confirm.json" <<EOJ
